@@ -228,6 +228,7 @@ func TestC20(t *testing.T) {
 		kind := kind
 		t.Run(kind, func(t *testing.T) {
 			rapid.Check(t, func(t *rapid.T) {
+				decorrelate(t, kind)
 				c := genAnyCfg(t, kind)
 				msg, bad := checkCfgAlgebra(c)
 				if bad {
@@ -514,6 +515,7 @@ func TestC20Reported(t *testing.T) {
 		kind := kind
 		t.Run(kind, func(t *testing.T) {
 			rapid.Check(t, func(t *rapid.T) {
+				decorrelate(t, kind)
 				cfg := genPCfg(t, kind, 200)
 				sa := kind == "GSAP" || kind == "OSAP"
 				tl := 500
